@@ -3,7 +3,7 @@
 import itertools
 
 BEH9 = ["ok", "fail", "error", "skip", "xfail", "uxs", "multi", "kbd", "exit"]
-RAISE_KINDS = ["fail", "error", "skip", "xfail", "uxs", "kbd", "exit", "kbdsub", "exitsub", "basedirect",
+RAISE_KINDS = ["fail", "error", "skip", "xfail", "uxs", "kbd", "exit", "kbdsub", "exitsub", "basedirect", "genexit",
                "skipsub", "failsub", "mismatch", "xfail_err", "skip_empty", "skip2", "unhashable", "surrogate"]
 
 
@@ -190,7 +190,7 @@ def random_program(rng, *, max_cleanups=4, kinds=RAISE_KINDS, p_raise=0.35, feat
         def soften(a):
             if a[0] == "multi":
                 return ["multi", [soften(x) for x in a[1]], a[2]]
-            if a[0] == "raise" and a[1] in ("kbd", "exit", "kbdsub", "exitsub", "basedirect"):
+            if a[0] == "raise" and a[1] in ("kbd", "exit", "kbdsub", "exitsub", "basedirect", "genexit"):
                 return ["raise", "error", a[2]]
             return a
         p["test"] = [soften(a) if a[0] == "multi" else a for a in p["test"]]
